@@ -354,12 +354,11 @@ func (tr *Addition) Add(write func(w *Writer) error) error {
 	}
 
 	dest := fn + ".ref"
-	tr.names = append(tr.names, dest)
-	tr.newTables = append(tr.newTables, dest)
-	dest = filepath.Join(tr.stack.reftableDir, dest)
-	if err := os.Rename(tab.Name(), dest); err != nil {
+	if err := os.Rename(tab.Name(), filepath.Join(tr.stack.reftableDir, dest)); err != nil {
 		return err
 	}
+	tr.names = append(tr.names, dest)
+	tr.newTables = append(tr.newTables, dest)
 	tr.nextUpdateIndex = wr.maxUpdateIndex + 1
 	return nil
 }
